@@ -405,7 +405,13 @@ impl<F: PathFetcher> PathSet<F> {
         }
 
         let path_fetch = async {
-            let fetched_paths = self.fetch_and_filter_paths(manager).await?;
+            let mut fetched_paths = self.fetch_and_filter_paths(manager).await?;
+
+            // Paths that are already expired are useless: they would be dropped from the cache
+            // right away, possibly leaving it empty after a "successful" fetch.
+            fetched_paths.retain(|p| {
+                check_path_expiry(p, now, self.config.min_expiry_threshold) != ExpiryState::Expired
+            });
 
             if fetched_paths.is_empty() {
                 // If no paths were found or all were filtered out
